@@ -5,7 +5,7 @@
    for a distance), Lg z (ln(1+z)), Ex x (e^x - 1).  Every property of the oracles that a
    statement needs is a premise written out in the statement.
    [create true], [modify true], [config_eq true] ... are the repaired model; [... false] is the
-   model of the code as it is (the _refuted statements). *)
+   model of the code of the pinned commit (the _refuted and _current statements). *)
 From Verif Require Import Prelude Config ConfigP.
 Open Scope Q_scope.
 
@@ -40,22 +40,37 @@ Theorem C15_mapped_edges_strict : forall D Dinv a b n,
 Proof. exact mapped_edges_strict. Qed.
 Print Assumptions C15_mapped_edges_strict.
 
+(* the repaired factory (end points assigned after the mapping): strictly increasing when the
+   distance function and its inverse are and the mapped interior points lie inside (zmin, zmax) *)
+Theorem C15_snapped_edges_strict : forall D Dinv a b n,
+  strictly_increasing D -> strictly_increasing Dinv -> a < b -> (1 <= n)%nat ->
+  interior_inside D Dinv a b n -> strict_incb (snapped_edges D Dinv a b n) = true.
+Proof. exact snapped_edges_strict. Qed.
+Print Assumptions C15_snapped_edges_strict.
+
 (* valid arguments are not refused *)
 Theorem C15_create_binning_accepts : forall Dc Dci Lg Ex cos a b n m cl,
   a < b -> (1 <= n)%nat -> cl <> ClUnknown ->
   match m with
   | MLinear => True
-  | MComoving => strictly_increasing (Dc cos) /\ strictly_increasing (Dci cos)
-  | MLogspace => strictly_increasing Lg /\ strictly_increasing Ex
+  | MComoving => strictly_increasing (Dc cos) /\ strictly_increasing (Dci cos) /\
+                 interior_inside (Dc cos) (Dci cos) a b n
+  | MLogspace => strictly_increasing Lg /\ strictly_increasing Ex /\ interior_inside Lg Ex a b n
   | _ => False
   end ->
-  exists ed, gen_edges Dc Dci Lg Ex cos m a b n = Some ed /\
-             create_binning Dc Dci Lg Ex cos (Some a) (Some b) (Some n) (Some m) None (Some cl)
+  exists ed, gen_edges Dc Dci Lg Ex true cos m a b n = Some ed /\
+             create_binning Dc Dci Lg Ex true cos (Some a) (Some b) (Some n) (Some m) None (Some cl)
              = Ok (mkBinning ed m cl).
 Proof. exact create_binning_accepts. Qed.
 Print Assumptions C15_create_binning_accepts.
 
-(* ---- edges_span ---- *)
+(* ---- edges_span: exactly [zmin, zmax], every method, no premise on the oracles ---- *)
+Theorem C15_edges_span : forall Dc Dci Lg Ex p c a b,
+  create Dc Dci Lg Ex true p = Ok c -> p_zmin p = Some a -> p_zmax p = Some b ->
+  hd 0 (b_edges (c_binning c)) = a /\ last (b_edges (c_binning c)) 0 = b.
+Proof. exact edges_span. Qed.
+Print Assumptions C15_edges_span.
+
 Theorem C15_edges_span_linear : forall Dc Dci Lg Ex fx p c a b,
   create Dc Dci Lg Ex fx p = Ok c -> p_zmin p = Some a -> p_zmax p = Some b ->
   default MLinear (p_method p) = MLinear ->
@@ -63,23 +78,25 @@ Theorem C15_edges_span_linear : forall Dc Dci Lg Ex fx p c a b,
 Proof. exact edges_span_linear. Qed.
 Print Assumptions C15_edges_span_linear.
 
-(* edges_span_endpoint_hypothesis D Dinv a b  :=  Dinv (D a) == a /\ Dinv (D b) == b.
+(* the code of the pinned commit maps the end points back like every other point; its edges
+   span [zmin, zmax] only under
+     edges_span_endpoint_hypothesis D Dinv a b  :=  Dinv (D a) == a /\ Dinv (D b) == b.
    The real z_at_value and exp(log(1+z))-1 violate it: finding F19. *)
-Theorem C15_edges_span_comoving : forall Dc Dci Lg Ex fx p c a b,
-  create Dc Dci Lg Ex fx p = Ok c -> p_zmin p = Some a -> p_zmax p = Some b ->
+Theorem C15_edges_span_current_comoving : forall Dc Dci Lg Ex p c a b,
+  create Dc Dci Lg Ex false p = Ok c -> p_zmin p = Some a -> p_zmax p = Some b ->
   p_method p = Some MComoving ->
   edges_span_endpoint_hypothesis (Dc (c_cosmo c)) (Dci (c_cosmo c)) a b ->
   hd 0 (b_edges (c_binning c)) == a /\ last (b_edges (c_binning c)) 0 == b.
-Proof. exact edges_span_comoving. Qed.
-Print Assumptions C15_edges_span_comoving.
+Proof. exact edges_span_current_comoving. Qed.
+Print Assumptions C15_edges_span_current_comoving.
 
-Theorem C15_edges_span_logspace : forall Dc Dci Lg Ex fx p c a b,
-  create Dc Dci Lg Ex fx p = Ok c -> p_zmin p = Some a -> p_zmax p = Some b ->
+Theorem C15_edges_span_current_logspace : forall Dc Dci Lg Ex p c a b,
+  create Dc Dci Lg Ex false p = Ok c -> p_zmin p = Some a -> p_zmax p = Some b ->
   p_method p = Some MLogspace ->
   edges_span_endpoint_hypothesis Lg Ex a b ->
   hd 0 (b_edges (c_binning c)) == a /\ last (b_edges (c_binning c)) 0 == b.
-Proof. exact edges_span_logspace. Qed.
-Print Assumptions C15_edges_span_logspace.
+Proof. exact edges_span_current_logspace. Qed.
+Print Assumptions C15_edges_span_current_logspace.
 
 Theorem C15_edges_span_without_endpoint_hypothesis_refuted :
   exists D Dinv a b n,
@@ -111,10 +128,17 @@ Print Assumptions C15_angle_units.
    rmin >= rmax or lengths differ, neither edges nor zmin and zmax, custom edges not strictly
    increasing or fewer than two, zmin >= zmax, num_bins = 0 ---- *)
 Theorem C15_invalid_rejected : forall Dc Dci Lg Ex p,
-  (forall cos, monotone (Dc cos)) -> (forall cos, monotone (Dci cos)) -> monotone Lg -> monotone Ex ->
   params_invalid p = true -> create Dc Dci Lg Ex true p = Rejected.
 Proof. exact invalid_rejected. Qed.
 Print Assumptions C15_invalid_rejected.
+
+(* pinned commit: zmin >= zmax is only seen through the mapped end points *)
+Theorem C15_invalid_rejected_current : forall Dc Dci Lg Ex p,
+  (forall cos, monotone (Dc cos)) -> (forall cos, monotone (Dci cos)) -> monotone Lg -> monotone Ex ->
+  (forall id, p_cosmo p <> CosCustom id) ->
+  params_invalid p = true -> create Dc Dci Lg Ex false p = Rejected.
+Proof. exact invalid_rejected_current. Qed.
+Print Assumptions C15_invalid_rejected_current.
 
 (* ---- modify_is_create_merge: for every configuration and every set of modifications ---- *)
 Theorem C15_modify_is_create_merge : forall Dc Dci Lg Ex c m,
@@ -140,13 +164,12 @@ Theorem C15_eq_decides : forall a b, config_eq true a b = Ok (config_eqb a b).
 Proof. exact config_eq_decides. Qed.
 Print Assumptions C15_eq_decides.
 
-(* ---- from_dict (to_dict c) = c for linear bins and custom edges ---- *)
-Theorem C15_roundtrip_linear_custom : forall Dc Dci Lg Ex p c,
+(* ---- from_dict (to_dict c) = c, custom edges and every generating method ---- *)
+Theorem C15_roundtrip_id : forall Dc Dci Lg Ex p c,
   create Dc Dci Lg Ex true p = Ok c -> cosmo_named (c_cosmo c) = true ->
-  (b_method (c_binning c) = MLinear \/ b_method (c_binning c) = MCustom) ->
   roundtrip Dc Dci Lg Ex true c = Ok c.
-Proof. exact roundtrip_linear_custom. Qed.
-Print Assumptions C15_roundtrip_linear_custom.
+Proof. exact roundtrip_id. Qed.
+Print Assumptions C15_roundtrip_id.
 
 (* ---- the code as it is: refuted by witnesses ---- *)
 (* F15: an unrelated modification regenerates comoving edges with the default cosmology *)
@@ -201,10 +224,17 @@ Example C15_concrete :
   let p := mkParams [1; 30] [2; 60] (Some Uarcmin) (Some (-1)) (Some 10%Z)
                     (Some (1 # 4)) (Some (5 # 4)) (Some 4%nat) None None (Some ClLeft) (CosName 0) None in
   let m := mkMods None None (Some Udeg) None None None None (Some 2%nat) None None None None None in
-  exists c c',
-    create_t t true p = Ok c /\ b_edges (c_binning c) = [1 # 4; 1 # 2; 3 # 4; 1; 5 # 4] /\
-    modify_t t true c m = Ok c' /\ b_edges (c_binning c') = [1 # 4; 3 # 4; 5 # 4] /\
-    s_unit (c_scales c') = Udeg /\ b_closed (c_binning c') = ClLeft /\
-    config_eq true c c' = Ok false /\ config_eq true c' c' = Ok true /\
-    Qred (angle Uarcmin (1 # 57) 1 1 30) = 1 # 114.
-Proof. eexists. eexists. vm_compute. repeat split. Qed.
+  match create_t t true p with
+  | Ok c =>
+      match modify_t t true c m with
+      | Ok c' =>
+          map Qred (b_edges (c_binning c)) = [1 # 4; 1 # 2; 3 # 4; 1; 5 # 4] /\
+          map Qred (b_edges (c_binning c')) = [1 # 4; 3 # 4; 5 # 4] /\
+          s_unit (c_scales c') = Udeg /\ b_closed (c_binning c') = ClLeft /\
+          config_eq true c c' = Ok false /\ config_eq true c' c' = Ok true /\
+          Qred (angle Uarcmin (1 # 57) 1 1 30) = 1 # 114
+      | _ => False
+      end
+  | _ => False
+  end.
+Proof. vm_compute. repeat split. Qed.
